@@ -120,7 +120,9 @@ fn session_indep<T: Pixel>(sh: &mut Shards, c: &Cfg, st: u8, rng: &mut Rng) {
         let _ = write!(o, "[{},{},{}]", v[0], v[1], v[2]);
     });
     let r: Result<(), String> = crate::util::guard_s(|| {
-        let yuv = Yuv::<T>::new(crate::frames::frame_from_pixels::<T>(&codes, w, h, c.ssx, c.ssy, [(0, 0); 3]), c.yuv_config()).map_err(|e| format!("ctor:{}", crate::frames::err_name_yuv(e)))?;
+        // plane layouts rotate: tight, V padded only, U padded only, horizontal-only paddings
+        let pads = [[(0usize, 0usize); 3], [(0, 0), (0, 0), (16, 0)], [(0, 0), (16, 2), (0, 0)], [(3, 0), (0, 1), (33, 0)]][(codes[0][0] as usize + codes[codes.len() - 1][2] as usize) % 4];
+        let yuv = Yuv::<T>::new(crate::frames::frame_from_pixels::<T>(&codes, w, h, c.ssx, c.ssy, pads), c.yuv_config()).map_err(|e| format!("ctor:{}", crate::frames::err_name_yuv(e)))?;
         let xyb = Xyb::try_from(&yuv).map_err(|e| format!("YuvToXyb:{}", crate::frames::err_name_conv(e)))?;
         let back = Yuv::<T>::try_from((xyb, yuv.config())).map_err(|e| format!("XybToYuv:{}", crate::frames::err_name_conv(e)))?;
         let _ = write!(s, ",\"cfgi\":{},\"cfgo\":{},\"wo\":{},\"ho\":{},\"in\":[", cfg_json_of(&yuv.config()), cfg_json_of(&back.config()), back.width(), back.height());
